@@ -808,7 +808,19 @@ def _handle_event_matching(
             and event.arguments["flow_id"] == flow_state.flow_id
             and head.position == 0
         ):
-            _start_flow(state, flow_state, event.arguments)
+            try:
+                _start_flow(state, flow_state, event.arguments)
+            except Exception as e:
+                # A flow that cannot be started (e.g., too many arguments) fails alone
+                log.warning("Flow '%s' could not be started: %s", flow_state.flow_id, e)
+                _abort_flow(state, flow_state, head.matching_scores)
+                _push_left_internal_event(
+                    state,
+                    Event(
+                        name="ColangError",
+                        arguments={"type": str(type(e).__name__), "error": str(e)},
+                    ),
+                )
         elif event.name == InternalEvents.FLOW_STARTED:
             # Add started flow to active scopes
             # TODO: Make this independent from matching to FlowStarted event since otherwise it could be added elsewhere
